@@ -181,6 +181,56 @@ def gen_table(rng, nmods=None):
     return files, meta
 
 
+def gen_shapes(rng):
+    """shapes whose identifiers used to be assigned while a set of objects was sorted (run with graph: true and
+    proc_internals: true): equally named types in different modules, one of them extended through a renamed
+    import; generic (multi-target) bindings inherited by several children; equally named, undocumented internal
+    procedures.  Mostly undocumented on purpose."""
+    tn = rng.choice(["t", "vec", "Node"])
+    nkids = rng.choice([2, 3, 4])
+    files = {}
+    files["src/ta.f90"] = (f"module sa\n  type :: {tn}\n    integer :: i\n  end type {tn}\n"
+                           f"  type :: other_a\n    integer :: q\n  end type other_a\nend module sa\n")
+    files["src/tb.f90"] = (f"module sb\n  use sa, only: at => {tn}\n  type :: {tn}\n    integer :: j\n  end type {tn}\n"
+                           f"  type, extends(at) :: child\n    integer :: k\n  end type child\nend module sb\n")
+    gens = rng.sample(["show", "plus", "operator(+)", "assignment(=)"], rng.choice([1, 2]))
+    lines = ["module sc", "  type :: base", "    integer :: n", "  contains",
+             "    procedure :: show_a", "    procedure :: show_b"]
+    for g in gens:
+        if g == "assignment(=)":
+            lines.append("    procedure :: set_b")
+            lines.append("    generic :: assignment(=) => set_b")
+        else:
+            lines.append(f"    generic :: {g} => show_a, show_b")
+    lines.append("  end type base")
+    where = rng.choice(["same", "other"])
+    kid_lines = []
+    for k in range(1, nkids + 1):
+        kid_lines += [f"  type, extends(base) :: c{k}", f"    integer :: m{k}", f"  end type c{k}"]
+    if where == "same":
+        lines += kid_lines
+    lines += ["contains",
+              "  function show_a(self, o) result(r)", "    class(base), intent(in) :: self", "    type(base), intent(in) :: o",
+              "    type(base) :: r", "    r%n = self%n + o%n", "  end function show_a",
+              "  function show_b(self, i) result(r)", "    class(base), intent(in) :: self", "    integer, intent(in) :: i",
+              "    type(base) :: r", "    r%n = self%n + i", "  end function show_b",
+              "  subroutine set_b(self, i)", "    class(base), intent(out) :: self", "    integer, intent(in) :: i",
+              "    self%n = i", "  end subroutine set_b",
+              "end module sc"]
+    files["src/tc.f90"] = "\n".join(lines) + "\n"
+    if where == "other":
+        files["src/sub/td.f90"] = "\n".join(["module sd", "  use sc"] + kid_lines + ["end module sd"]) + "\n"
+    hosts = []
+    for k in range(1, rng.choice([2, 3]) + 1):
+        hosts += [f"  subroutine host{k}()", "    integer :: w", "    w = 1", "  contains",
+                  "    subroutine helper()", "    end subroutine helper", f"  end subroutine host{k}"]
+    files["src/te.f90"] = "\n".join(["module se", "contains"] + hosts + ["end module se"]) + "\n"
+    meta = {"clash": True, "modclash": False, "multiuse": False, "children": True, "nfiles": len(files),
+            "extra": False, "shapes": True,
+            "options": {"graph": "true", "proc_internals": "true", "search": "false"}}
+    return files, meta
+
+
 def other_project(rng):
     """an unrelated project whose output is used as the stale content of an output directory"""
     return {"src/zzother.f90": "module zz_stale_mod\n  integer :: zz_stale_var\n  !! stale\ncontains\n"
